@@ -24,15 +24,94 @@ def opt_some(c):
 
 
 def ev_single_voter(F, c):
-    return c.truth is True and c.kind == "bool" and cond_reads_field(F, c, "ClusterMetadata", "single_voter")
+    return (c.truth is True and c.kind == "bool" and cond_reads_field(F, c, "ClusterMetadata", "single_voter")) or _ev_helper(F, c) == "single_voter"
 
 
 def ev_lease(F, c):
-    return c.truth is True and cond_calls(F, c, LEASE_VALID)
+    return (c.truth is True and cond_calls(F, c, LEASE_VALID)) or _ev_helper(F, c) == "lease-valid"
 
 
 def ev_quorum(F, c):
-    return opt_some(c) and cond_calls(F, c, QUORUM)
+    return (opt_some(c) and cond_calls(F, c, QUORUM)) or _ev_helper(F, c) == "quorum-confirmed"
+
+
+# ---- evidence established inside a boolean predicate helper (`let ok = self.quorum_confirmed(ctx); if ok {..}`)
+_HELPER_EV = {}
+
+
+def _expr_evidence(e):
+    """kind of leadership evidence a TRUE value of the symbolic boolean expression e establishes (None = none)"""
+    from .. import pathsym
+    e = pathsym.strip_refs(e) if e is not None else None
+    if e is None:
+        return None
+    if e[0] == "call":
+        k = strip_generics(e[1])
+        if k.endswith("Option::is_some") and e[2] and pathsym.mentions(e[2][0], lambda x: x[0] == "call" and re.search(QUORUM, strip_generics(x[1]))):
+            return "quorum-confirmed"
+        if re.search(LEASE_VALID, k):
+            return "lease-valid"
+    if e[0] == "is" and e[2] == "Some" and pathsym.mentions(e[1], lambda x: x[0] == "call" and re.search(QUORUM, strip_generics(x[1]))):
+        return "quorum-confirmed"
+    if e[0] == "field" and e[2] == "single_voter":
+        return "single_voter"
+    if e[0] == "bin" and e[1] == "BitAnd":
+        return _expr_evidence(e[2]) or _expr_evidence(e[3])
+    return None
+
+
+def helper_evidence(F, fid):
+    """fid: a loop-free bool-returning workspace function. kind of evidence that holds on EVERY path returning true"""
+    from .. import pathsym
+    if fid in _HELPER_EV:
+        return _HELPER_EV[fid]
+    _HELPER_EV[fid] = None
+    b = F.bodies.get(fid)
+    if b is None or (b.local_ty(0) or "") != "bool":
+        return None
+    try:
+        paths, _ev = pathsym.decision_table(F, F.main_body(b))
+    except pathsym.TooComplex:
+        return None
+    kinds = set()
+    for p in paths:
+        r = pathsym.strip_refs(p.ret) if p.ret is not None else None
+        if r is None or (r[0] == "const" and r[1] in ("false", "0")):
+            continue
+        k = None
+        if r[0] == "const":      # `true` under conditions: one of them must be evidence
+            for (ce, out) in p.conds:
+                if out is True and _expr_evidence(ce):
+                    k = _expr_evidence(ce)
+                elif isinstance(out, frozenset) and out == frozenset({"Some"}) and ce[0] == "variant" and \
+                        pathsym.mentions(ce[1], lambda x: x[0] == "call" and re.search(QUORUM, strip_generics(x[1]))):
+                    k = "quorum-confirmed"
+        else:
+            k = _expr_evidence(r)
+        if k is None:
+            return None
+        kinds.add(k)
+    out = kinds.pop() if len(kinds) == 1 else ("+".join(sorted(kinds)) if kinds else None)
+    _HELPER_EV[fid] = out
+    return out
+
+
+def _ev_helper(F, c):
+    """c is the TRUE edge of a test whose value is exactly the result of one predicate helper"""
+    if c.truth is not True or c.kind not in ("bool", "call"):
+        return None
+    s = cond_slice(F, c)
+    if any(x[0] in ("binop", "unop", "agg", "param", "discr") for x in s.sources):
+        return None
+    calls = [x[1] for x in s.sources if x[0] == "call"]
+    if len(calls) != 1:
+        return None
+    k = calls[0]
+    tg = [k] if k in F.bodies else [d for (_s, d) in F.impls_of_method.get(k, [])]
+    if len(tg) != 1:
+        return None
+    ev = helper_evidence(F, tg[0])
+    return ev if ev and "+" not in ev else None
 
 
 def evidence(F, c):
